@@ -30,6 +30,18 @@ func notClaimed() [][2]string {
 func props() []prop {
 	return []prop{
 		{
+			ID: "C19", Level: "exploration",
+			LevelText:   "Recorded histories of Subscribe/Unsubscribe/UnsubscribeAll/Publish (call and return stamps from one logical clock at the API boundary, unique event ids) with subscribers terminating and restarting, issued from racing goroutines on the real event stream in a synctest bubble, are checked per event type by porcupine against the sequential model 'set of subscribers' - which decides 'to exactly the current subscribers', 'no effect of a double subscribe' and 'not after Unsubscribe returned / termination' - plus exactly-once and per-publisher order ledgers and a hooked-state invariant on both subscriber tables at quiescence; a second unit repeats the histories under the race detector.",
+			LevelNote:   "Trusted: porcupine v1.3.0, the 10-line model, synctest quiescence for 'recipients(e)' (processed or dead-lettered). UnsubscribeAll contributes one op per type over the same interval (sound weakening).",
+			Technique:   "linearizability checking of recorded histories (porcupine) + exactly-once/ordering ledger + table invariant at quiescence + race detector",
+			DesignRef:   "DESIGN.md §4 C19",
+			Assumptions: with("recipients(e) = actors that processed e or had e dead-lettered"),
+			Units: []unit{
+				{Check: "eventstream", Pkg: "internal/actor", Shards: [2]int{8, 16}, Timeout: [2]time.Duration{6 * min, 40 * min}, CrashKey: "c19-crash", OnlyKinds: []string{"c19-", "harness-"}},
+				{Check: "eventstreamrace", Pkg: "internal/actor", Race: true, Shards: [2]int{4, 16}, Timeout: [2]time.Duration{8 * min, 40 * min}, CrashKey: "c19-crash", OnlyKinds: []string{"c19-", "harness-", "data-race"}},
+			},
+		},
+		{
 			ID: "C20", Level: "exploration",
 			LevelText:   "Exact reference-model comparison in virtual time: PRNG programs of Once/Loop/Cron/Cancel/Clear/Kill/fail-and-restart (incl. cancellations aimed at firing instants and malformed cron expressions) run on the real scheduler stack (vivid Scheduler -> go-quartz -> mailbox) inside a synctest bubble whose clock is exact; every delivery (and dead letter) of a scheduled message is recorded with its virtual instant and compared with the model: required firings exactly once, nothing early, nothing at/after cancel, clear, owner termination or restart (a tie at the same instant is accepted either way), parse errors for invalid cron, not-found for unknown cancel, original message value, through the mailbox (handler overlap monitor).",
 			LevelNote:   "Trusted: the 60-line reference model, synctest's clock, the fixed pool of cron expressions go-quartz itself rejects. Re-using a live reference on the same actor is unspecified and not generated. go-quartz's 100 ms 'outdated job' rule needs real scheduler stalls and cannot occur in virtual time.",
